@@ -69,7 +69,11 @@ def build(model, ranks=None, plain=False, default_resource_ids=False, share_id_o
         workflow.extend_child_task_list([tasks[i] for i in (model.get("order") or range(len(tasks))) if i not in late])
     for (pi, si, kind) in model.get("deps", []):
         # dependency kinds as enum members, or as the plain integers the saved format holds
-        tasks[si].append_input_task(tasks[pi], task_dependency_mode=(int(kind) if model.get("int_kinds") else TD(kind)))
+        kind_ = int(kind) if model.get("int_kinds") else TD(kind)
+        if model.get("extend_links"):
+            tasks[si].extend_input_task_list([tasks[pi]], kind_)
+        else:
+            tasks[si].append_input_task(tasks[pi], task_dependency_mode=kind_)
     ext = []
     for n_, (si, kind, state) in enumerate(model.get("ext_preds", [])):
         # a predecessor that is not an element of this workflow (e.g. a task of another project); nobody updates it
